@@ -969,7 +969,7 @@ pub fn main(tier: Tier, replay: Option<Value>) -> i32 {
     };
     let cap_s: u64 = std::env::var("VERIF_CAP_S").ok().and_then(|s| s.parse().ok()).unwrap_or(match tier {
         Tier::Quick => 600,
-        Tier::Thorough => 1100,
+        Tier::Thorough => 7200,
     });
     let deadline = Instant::now() + Duration::from_secs(cap_s);
     let mut reports = vec![];
